@@ -209,6 +209,36 @@ theorem touch_preserves_links (s : State) (g : Nat) : LinkInv { s with σ := tou
   simp only [LinkInv, linkInvB, linkedB_touch]
   simp only [touch]
 
+/-- **slicePut_flushes_children** (repaired C02-F1 call site): the tail of a slice put to `Call` / `ClassDef` /
+`MatchClass` leaves every direct child that has an FST with an empty cache, changes no link, and keeps LinkInv. -/
+theorem slicePut_flushes_children (s : State) (l : List Ast) :
+    (∀ k ∈ l, ∀ f, s.σ.astF k.id = some f → ((touchKids s.σ l).fst f).cache = []) ∧
+    (LinkInv { s with σ := touchKids s.σ l } ↔ LinkInv s) := by
+  constructor
+  · generalize s.σ = σ
+    induction l generalizing σ with
+    | nil => intro k hk; cases hk
+    | cons c rest ih =>
+      intro k hk f hf
+      simp only [touchKids]
+      cases hk with
+      | head =>
+        apply touchKids_cache_stays
+        simp only [touchAst, hf]
+        exact touch_cache_self σ f
+      | tail _ hk' =>
+        exact ih (touchAst σ c.id) k hk' f (by rw [touchAst_astF]; exact hf)
+  · simp only [LinkInv, linkInvB, linkedB_touchKids, touchKids_astF]
+
+/-- **unpar_flushes_self** (repaired C02-F3 call site `self._touchall(True, True, False)`): afterwards the node's own
+cache is empty, whatever the parent chain looks like. -/
+theorem unpar_flushes_self (σ : Store) (f : Nat) (t : Ast) (parents : Bool) :
+    ((touchall σ f t parents true false).fst f).cache = [] := by
+  simp only [touchall, Bool.false_eq_true, if_false, if_true]
+  split
+  · exact touchParents_cache_stays _ _ _ f (touch_cache_self σ f)
+  · exact touch_cache_self σ f
+
 /-! ### cache coherence of the `_offset` walk -/
 
 /-- **offset_touches_changed**: on every geometrically ordered tree (`geo`, evaluated on each real tree by the
@@ -341,6 +371,9 @@ private def σ0 : Store :=
 private def s1 : State := { root := tree0, rootF := 0, σ := makeKids σ0 0 tree0.kids }
 
 example : LinkInv s1 := by unfold LinkInv; decide
+-- the repaired slice-put tail really empties a populated cache of a child
+example : ((touchKids { s1.σ with fst := upd s1.σ.fst 4 { s1.σ.fst 4 with cache := [("parsN", [0, 2, 0, 3, 0])] } }
+    [ .mk 4 "Name" none [], .mk 5 "Name" none [] ]).fst 4).cache = [] := by decide
 -- the hypotheses of `make_inv` are met by the empty-store-plus-root state
 example : (ids tree0).Nodup ∧ (∀ x ∈ idsList tree0.kids, σ0.astF x = none) := by decide
 -- replacing `[a, b]` (FST 3) by a fresh `f(c)` keeps the invariant, kills the old elements, keeps FST 3
